@@ -64,12 +64,18 @@ func c25Wallet(i int) wallet {
 		k = big.NewInt(101)
 	case 3:
 		k = new(big.Int).Sub(tecdsa.Curve.Params().N, big.NewInt(100))
+	default:
+		if i > 3 {
+			k = big.NewInt(int64(200 + i))
+		}
 	}
 	x, y := tecdsa.Curve.ScalarBaseMult(k.Bytes())
 	return wallet{publicKey: &ecdsa.PublicKey{Curve: tecdsa.Curve, X: x, Y: y}}
 }
 
 var c25Wallets = map[int]wallet{}
+
+const c25MaxWallet = 12
 
 // ---- observation -------------------------------------------------------------------
 
@@ -129,6 +135,10 @@ func (a *c25Action) execute() error {
 		vsched.Block("gate", func() bool { return o.threadsDone == a.n })
 	case "tick":
 		vtime.Sleep(time.Second)
+	case "chain":
+		// runs until every dispatcher thread has returned and all actions dispatched
+		// before this one have ended: many actions in flight at once, ending one by one
+		vsched.Block("chain", func() bool { return o.threadsDone == a.n && o.ended == d.id })
 	default:
 		panic("c25: unknown duration " + d.op.Dur)
 	}
@@ -185,9 +195,10 @@ func c25Body(sc c25Scenario, obs *c25Obs) func() {
 				wallets[op.Wallet] = true
 			}
 		}
-		for w := 1; w <= 3; w++ {
+		for w := 1; w <= c25MaxWallet; w++ {
 			if wallets[w] {
 				dispatch(c25Op{Wallet: w, Dur: "y0"}, true)
+				vtime.Sleep(time.Second) // one probe at a time (no factorial of probe action orders)
 			}
 		}
 		vtime.Sleep(time.Second)
@@ -319,8 +330,41 @@ func c25Legs(thorough bool) []c25Leg {
 			}
 		}
 	}
+	// long: the lifetime of a node - one thread dispatches many actions one after the
+	// other (each after the previous one ended), failing ones included: whatever the
+	// dispatcher accumulates per finished action shows up after enough of them.
+	// wide: many wallets busy at the same time (every dispatch accepted before any
+	// action ends; the actions then end one by one).
+	var long, wide []c25Scenario
+	nLong, nWide := 12, 10
+	if thorough {
+		nLong, nWide = 24, c25MaxWallet
+	}
+	for _, pat := range []string{"err", "alt", "one"} {
+		var ops []c25Op
+		for i := 0; i < nLong; i++ {
+			op := c25Op{Wallet: 1 + i%3, Dur: "y0", Err: true, Sleep: true}
+			switch pat {
+			case "alt":
+				op.Err = i%2 == 0
+			case "one":
+				op.Wallet = 1
+			}
+			ops = append(ops, op)
+		}
+		long = append(long, c25Scenario{[][]c25Op{ops}})
+	}
+	{
+		var ops []c25Op
+		for w := 1; w <= nWide; w++ {
+			// (the pause lets each action reach its waiting point before the next dispatch:
+			// one enabled thread at a time, no factorial of start orders)
+			ops = append(ops, c25Op{Wallet: w, Dur: "chain", Err: w%4 == 0, Sleep: true})
+		}
+		wide = append(wide, c25Scenario{[][]c25Op{ops}})
+	}
 	if !thorough {
-		return []c25Leg{{"two", 2, two}, {"again", 2, again}, {"three", 1, three}}
+		return []c25Leg{{"two", 2, two}, {"again", 2, again}, {"three", 1, three}, {"long", 1, long}, {"wide", 1, wide}}
 	}
 	// four threads, two per wallet
 	var four []c25Scenario
@@ -329,7 +373,7 @@ func c25Legs(thorough bool) []c25Leg {
 			four = append(four, c25Scenario{[][]c25Op{{{Wallet: 1, Dur: a}}, {{Wallet: 1, Dur: b}}, {{Wallet: 2, Dur: "gate"}}, {{Wallet: 2, Dur: "y0"}}}})
 		}
 	}
-	return []c25Leg{{"two", 3, two}, {"again", 3, again}, {"three", 2, three}, {"four", 1, four}}
+	return []c25Leg{{"two", 3, two}, {"again", 3, again}, {"three", 2, three}, {"four", 1, four}, {"long", 2, long}, {"wide", 2, wide}}
 }
 
 // c25Racy: scenarios for the unit whose dispatch carries a scheduling point before
@@ -364,13 +408,13 @@ func TestVerifC25Racy(t *testing.T) {
 func c25Run(t *testing.T, unit string, legsOf func(thorough bool) []c25Leg) {
 	r := vrep.Start(t, "C25", unit)
 	defer r.Finish()
-	for i := 1; i <= 3; i++ {
+	for i := 1; i <= c25MaxWallet; i++ {
 		c25Wallets[i] = c25Wallet(i)
 	}
 	golog.SetAllLoggers(golog.LevelFatal) // the dispatcher logs every action
 	var obs c25Obs
 	opts := func(bound int) vsched.Options {
-		return vsched.Options{Bound: bound, Horizon: 12, Stop: r.Expired}
+		return vsched.Options{Bound: bound, Horizon: 64, Stop: r.Expired}
 	}
 	evaluate := func(sc c25Scenario, bound int, s *vsched.Sched) {
 		r.Eval(1)
